@@ -387,6 +387,9 @@ def desugar_match(node: 'ast.Match'):
             if not tests:
                 return True, None
             return (tests[0] if len(tests) == 1 else ast.BoolOp(op=ast.And(), values=tests)), None
+        if isinstance(pat, ast.MatchClass) and not pat.patterns and not pat.kwd_patterns:
+            # `case int():` - an instance test
+            return ast.Call(func=ast.Name(id='isinstance', ctx=ast.Load()), args=[subj, pat.cls], keywords=[]), None
         if isinstance(pat, ast.MatchValue):
             return ast.Compare(left=subj, ops=[ast.Eq()], comparators=[pat.value]), None
         if isinstance(pat, ast.MatchSingleton):
